@@ -20,6 +20,20 @@ type Mutex struct {
 func MarkGlobal(m *Mutex, name string) {
 	m.global = true
 	m.name = name
+	globalMutexes = append(globalMutexes, m)
+}
+
+var globalMutexes []*Mutex
+
+// resetGlobalMutexes clears the model state of the package-level mutexes: an
+// execution that was cut (deadlock, sleep-set block) while one of them was held
+// must not leak the held flag or its vector clock into the next execution.
+func resetGlobalMutexes() {
+	for _, m := range globalMutexes {
+		m.held = false
+		m.owner = 0
+		m.vc = [MaxThreads]uint32{}
+	}
 }
 
 func (m *Mutex) Lock() {
